@@ -79,6 +79,14 @@ func c19Call(op string, r *core.Rand) sm2Call {
 		return c
 	}
 	priv := genPriv(r)
+	if r.Chance(1, 4) { // the API accepts keys with leading zero bytes stripped
+		v := randScalar(r)
+		v.Rsh(v, uint(8*r.PickInt(1, 2, 8, 16, 24, 30, 31)))
+		if v.Sign() == 0 {
+			v.SetInt64(1)
+		}
+		priv = v.Bytes()
+	}
 	c.Priv = hx(priv)
 	switch op {
 	case "SignHashed":
@@ -236,6 +244,7 @@ func (c19) Execute(sc core.Script, keep bool) *core.Result {
 		res.Steps = log.Steps()
 		res.LogLines = log.Lines
 	}()
+	sm2Canon()
 	op := s.Call.Op
 	viol := func(class, role, param, detail string) {
 		res.Violation = &core.Violation{Class: class, Op: op, Role: role, Param: param, Detail: detail}
